@@ -29,7 +29,9 @@ SPEC = {
                  "C20_skeleton_shutdown", "C20_skeleton_stopWorkers", "C20_skeleton_cleanupWorker",
                  "C20_shutdown_progress", "C20_run_progress", "C20_shutdown_not_stuck",
                  "C20_skeleton_GetRunningBackgroundWorkers", "C20_skeleton_IsStopped", "C20_skeleton_IsRunning",
-                 "C20_skeleton_ContextStopped", "C20_skeleton_type_OrderedDaemon", "C20_skeleton_type_worker"],
+                 "C20_skeleton_ContextStopped", "C20_skeleton_type_OrderedDaemon", "C20_skeleton_type_worker",
+                 "C20_running_list_ascending", "C20_running_list_complete", "C20_registered_all_running",
+                 "C20_reregistration_branch_dead"],
     "trusted_base": [
         "hand-written protocol model Hive/Model/Daemon.lean of app/daemon/daemon.go (critical sections of d.lock atomic; "
         "lock-free reads as separate steps), tied by (a) differential execution of sequential histories against the model "
@@ -43,7 +45,9 @@ SPEC = {
         "Shutdown/ShutdownAndWait (stopOnce, shutdown, stopWorkers, clear), runBackgroundWorker goroutine, cleanupWorker",
         "sort.Slice is modelled as 'any arrangement sorted by descending order'",
         "workers map + shutdownOrderWorker slice are one list of instances (both are always updated in the same critical section)",
-        "NOT modelled: the logger, stoppedCtx, GetRunningBackgroundWorkers (only used by the sequential tie), "
+        "GetRunningBackgroundWorkers = runningList (reverse of the flagged part of the registry); the variadic order = effOrder "
+        "(first value, 0 when none); the package-level wrappers are driven as the same api on the default daemon",
+        "NOT modelled: the logger, stoppedCtx (ContextStopped is compared with the stopped flag at quiescence), "
         "WaitGroup misuse panics (Add concurrent with Wait), handlers that call back into the daemon",
     ],
     "manifest": {
